@@ -1,2 +1,3 @@
 import GqlProofs.Props.C03
 import GqlProofs.Props.C12
+import GqlProofs.Props.C13
